@@ -1626,3 +1626,4 @@ def r12(cx):
 
 # --- explanation addendum (generated catalogue in DESIGN.md reads RS.explanation)
 RS.explanation += " Added later: ulimit's long names agree with the resource selected by the short letter (R1b); the cut of `--name=value` is measured in the text the user typed (R3b). the user manual's -x (--long) pairs are pairs of the option tables (R6). getopts keeps scanning a group after any letter without argument (R9). kill reads only unsigned decimals as signal numbers (R10)."
+RS.explanation += " Every integer parse of operand text in the built-ins, job IDs, signal names, traps and option parsing sits behind a digit test, rejects the sign afterwards, or is a reviewed sign-tolerant site - `trap '' +2`, `kill -l +2`, `kill -s +9`, `%+1` are not numbers (R11, inventory of 19 sites, 12 reviewed entries). The name compared with `sh` at start-up is arg0 with the login hyphen removed (R12)."
